@@ -25,6 +25,10 @@ def shard_trie(desc):
     return qrun.trie_shard(desc)[1]
 
 
+def shard_ultra(desc):
+    return qrun.ultralong_shard(desc)[1]
+
+
 WITNESSES = [
     # (p, stream): deterministic witnesses of the two recorded known findings
     (0.25, [1.7e308, -1.7e308, 1.7e308, -1.7e308, 1.7e308, -1.7e308, 1.7e308]),
@@ -59,7 +63,7 @@ def run(tier, seed):
     total = Result()
     cfg = {}
     try:
-        total, cfg = c05.run_workload(tier, seed, shard_stream, shard_trie)
+        total, cfg = c05.run_workload(tier, seed, shard_stream, shard_trie, shard_ultra)
         for variant in ('release', 'dev'):
             total.merge(qrun.ctor_shard({'binary': build(variant), 'variant': variant}))
             total.merge(witness(build(variant), variant))
